@@ -507,12 +507,12 @@ func runC13(c *core.Ctx) {
 								okT, whyT = false, "the pacer sends on something other than the control channel"
 							}
 							sendIdx = append(sendIdx, i)
-						} else if isTimeAfter(arm.Chan) {
+						} else if tc := timerCall(arm.Chan); tc != nil {
 							if waitIdx >= 0 {
 								okW, whyW = false, "more than one interval wait on a path"
 							}
-							waitIdx, afterCh = i, arm.Chan
-							_, _, args, _ := callParts(arm.Chan)
+							waitIdx, afterCh = i, tc
+							_, _, args, _ := callParts(tc)
 							if len(args) != 1 || !isParamTerm(args[0], interval) {
 								okW, whyW = false, "time.After is called with "+short(args[0])+", expected the interval parameter"
 							}
@@ -586,7 +586,7 @@ func runC13(c *core.Ctx) {
 						for j := i + 1; j < len(p.Steps); j++ {
 							if p.Steps[j].Kind == ir.KSelect {
 								for _, a := range p.Steps[j].Arms {
-									if !a.Send && ir.Same(a.Chan, st.R) {
+									if !a.Send && ir.Same(timerCall(a.Chan), st.R) {
 										used = true
 									}
 								}
